@@ -275,6 +275,9 @@ def _digest(rows, fields):
 
 
 PAYLOAD = ("rec", "name", "alt", "resn", "x", "y", "z", "occ", "b", "elem", "model")
+# written PDB text carries occupancy / B with two decimals: a table value with more decimals (corpus files) may
+# come back one centi-unit off, so the read-back comparison digests the other fields and measures these two
+PAYLOAD_RB = tuple(f for f in PAYLOAD if f not in ("occ", "b"))
 
 
 def _charge_val(chars):
@@ -295,7 +298,8 @@ def _stats(inp, out, back):
     s["max_res_per_chain"] = max(len(v) for v in per.values())
     z = {"out_n": 0, "out_max_serial": 0, "out_max_resseq": 0, "out_max_chain_len": 0, "out_min_chain_len": 0,
          "out_chains": 0, "out_residues": 0, "out_serial_distinct": 0, "chain_pairs": 0, "res_pairs": 0,
-         "payload_out": "", "ids_out": "", "back_n": 0, "payload_back": "", "ids_back": ""}
+         "payload_out": "", "ids_out": "", "back_n": 0, "payload_back": "", "ids_back": "",
+         "payload_out_rb": "", "back_ob_maxdiff": 0}
     s.update(z)
     if out:
         ids = ("serial", "chain", "resseq", "icode")
@@ -312,7 +316,13 @@ def _stats(inp, out, back):
             s["res_pairs"] = len({(tuple(a["chain"]), a["resseq"], tuple(a["icode"]),
                                    tuple(b["chain"]), b["resseq"], tuple(b["icode"])) for a, b in zip(inp, out)})
         if back:
-            s.update({"back_n": len(back), "payload_back": _digest(back, PAYLOAD), "ids_back": _digest(back, ids)})
+            s.update({"back_n": len(back), "payload_back": _digest(back, PAYLOAD_RB), "ids_back": _digest(back, ids),
+                      "payload_out_rb": _digest(out, PAYLOAD_RB)})
+            if len(back) == len(out):
+                s["back_ob_maxdiff"] = max([0] + [max(abs(a["occ"] - b["occ"]), abs(a["b"] - b["b"]))
+                                                  for a, b in zip(out, back)
+                                                  if isinstance(a["occ"], int) and isinstance(b["occ"], int)
+                                                  and isinstance(a["b"], int) and isinstance(b["b"], int)])
     return s
 
 
